@@ -198,10 +198,25 @@ def classify_f55(ctx, dis):
             else: rest.append(d)
     return rest, n55
 
+def set_to_sequence(t):
+    """SET has no OER codec in asn1c (F32): to keep the generated modules inside the comparable region
+    every SET is rewritten as a SEQUENCE with the same components (values are dicts by identifier in both
+    cases; the generator tags every SET component, so the result is a legal SEQUENCE)."""
+    t = dict(t)
+    if t["k"] == "SET": t["k"] = "SEQUENCE"
+    if t["k"] in ("SEQUENCE", "CHOICE"):
+        t["comps"] = [dict(c, type=set_to_sequence(c["type"])) for c in t["comps"]]
+    elif t["k"] in ("SEQUENCE OF", "SET OF"):
+        t["elem"] = set_to_sequence(t["elem"])
+    return t
+
 def run_oer(ctx):
     nb = 6 if ctx.quick else 40
     nvals = 8 if ctx.quick else 25
     mods = c01.gen_bundles(ctx, nb)
+    # every second generated module keeps its SETs (F32 region skipped), the others are rewritten
+    for i, m in enumerate(mods):
+        if i % 2 == 0: m["types"] = [(n, set_to_sequence(t)) for n, t in m["types"]]
     bm, bvals = genmod.boundary_module(ctx.rng, ctx.quick)
     om, ovals = oer_shapes_module(ctx.rng, ctx.quick)
     cases = [(om, ovals), (bm, bvals)]
